@@ -201,7 +201,11 @@ def compactsize(ctx, d, bins, totals):
     need = {"bnd:false", "bnd:true", "unb:false", "unb:true", "vec:false", "vec:true", "opt:false", "opt:true", "w1", "w3", "w5", "w9"}
     if not need <= set(res["classes"]):
         raise lib.ToolError("vacuity: CompactSize case classes missing: %s" % sorted(need - set(res["classes"])))
-    for m in res["mismatches"][:MAX_REPORTED]:
+    seen = []
+    for m in res["mismatches"]:
+        if m["case"] in seen or len(seen) >= MAX_REPORTED:
+            continue
+        seen.append(m["case"])
         lib.violation(ctx, {"property": "C03", "kind": "compactsize", "case": m["case"]},
                       "in-repo zcash_encoding disagrees with spec/Codec/CompactSize.tla: %s: %s" % (m["api"], m["what"]))
     totals["compactsize_cases"] = len(cases)
@@ -234,21 +238,34 @@ def emit_cs_cases(ctx, d, samples, veclens):
 # ------------------------------------------------------------------------------------------------
 # (2) layouts from TLC
 
-def emit_layouts(ctx, d, extra, counts="{0, 1, 2}", emit=True, name="tx", workers=8):
+MUT_BRANCHES_QUICK = ["Sprout", "Overwinter", "Sapling", "Nu5", "Nu6_2", "Nu6_3"]
+
+
+def emit_layouts(ctx, d, extra, counts="{0, 1, 2}", emit=True, name="tx", workers=8, mut_branches=None):
     with open(os.path.join(d, "MC_%s.tla" % name), "w") as f:
         f.write("---- MODULE MC_%s ----\nEXTENDS MC_TxLayout\nExtraDef == %s\n"
-                "MutBranchesDef == {\"Sprout\", \"Overwinter\", \"Sapling\", \"Nu5\", \"Nu6_2\", \"Nu6_3\"}\n====\n"
-                % (name, "{ " + ",\n  ".join(tla(s) for s in extra) + " }" if extra else "{ }"))
+                "MutBranchesDef == %s\n====\n"
+                % (name, "{ " + ",\n  ".join(tla(s) for s in extra) + " }" if extra else "{ }", tla(set(mut_branches or MUT_BRANCHES_QUICK))))
     with open(os.path.join(d, "MC_%s.cfg" % name), "w") as f:
         f.write("SPECIFICATION Spec\nCONSTANTS\n  Counts = %s\n  Extra <- ExtraDef\n  MutCounts = {0, 1}\n  MutBranches <- MutBranchesDef\n"
                 "  PFCounts = {0, 1}\n  Emit = %s\nINVARIANTS Thm PF\nCHECK_DEADLOCK FALSE\n" % (counts, "TRUE" if emit else "FALSE"))
-    r = lib.tlc(ctx, d, "MC_%s" % name, "MC_%s.cfg" % name, workers=workers, timeout=1500, xss="256m")
-    lib.require_coverage(r, ["Eval"])
+    def once(w):
+        r = lib.tlc(ctx, d, "MC_%s" % name, "MC_%s.cfg" % name, workers=w, timeout=1500, xss="256m")
+        lib.require_coverage(r, ["Eval"])
+        if not emit:
+            return r, [], [], [], []
+        try:
+            return r, r.prints("CASE"), r.prints("HDR"), r.prints("WCASES"), r.prints("CONST")
+        except ValueError:          # a printed line garbled by concurrent workers
+            return r, [], [], [], []
+
+    r, cases, hdr, wcases, const = once(workers)
+    if emit and len(cases) * 2 != r.distinct and workers > 1:
+        lib.log("note: %d cases parsed for %d states; repeating the emission with one worker" % (len(cases), r.distinct))
+        r, cases, hdr, wcases, const = once(1)
     lib.account_tlc(ctx, r)
     if not emit:
         return r, [], None, None, None
-    cases = r.prints("CASE")
-    hdr, wcases, const = r.prints("HDR"), r.prints("WCASES"), r.prints("CONST")
     if not (cases and hdr and wcases and const):
         raise lib.ToolError("MC_TxLayout printed no cases / tables")
     if len(cases) * 2 != r.distinct:
@@ -508,7 +525,7 @@ def run(ctx):
     flags = known_flags()
     cs_cases = compactsize(ctx, d, bins, totals)
     extra = extra_shapes(ctx.seed, quick)
-    r, cases, hdr, wcases, const = emit_layouts(ctx, d, extra)
+    r, cases, hdr, wcases, const = emit_layouts(ctx, d, extra, mut_branches=None if quick else list(BRANCH_IDS))
     hcases = emit_headers(ctx, d, SOL_LENS_QUICK if quick else SOL_LENS_THOROUGH)
     totals["shapes"] = len(cases)
     totals["extra_shapes"] = len(extra)
@@ -531,7 +548,7 @@ def run(ctx):
              "branch) pairs + %d boundary/seeded shapes) is materialised %d times as a real transaction and compared token by "
              "token / field by field; every mutant record of the robustness driver is validated by TLC against Trace_Codec; "
              "evaluations = transactions and headers replayed + CompactSize calls + mutants parsed; distinct_nontrivial = "
-             "distinct transaction ids / header hashes among the replayed values" % (len(PAIRS), len(extra), samples),
+             "distinct transaction ids of replayed transactions with at least one non-empty bundle + distinct block header hashes" % (len(PAIRS), len(extra), samples),
         evaluations=totals.get("transactions", 0) + totals.get("block_headers", 0) + totals.get("compactsize_calls", 0) + totals.get("mutants", 0),
         distinct_nontrivial=totals.get("distinct_ids", 0),
         extra={"exhaustive_within_bounds": True},
